@@ -21,9 +21,26 @@ import (
 
 func TestMain(m *testing.M) { harness.Main(m) }
 
-const rule = "C02: table items(id, ca, cb int; cs text; cn int NULL; ct text NULL; cor int; band text - two column names containing the letters of OR / AND) with 0-12 rows over tiny domains (text values include keyword-bearing data such as or / sand / b and c, compared values also x OR y); a chain of 1-5 Where/Not/Or calls (first effective call not Or) over units = condition tree (atoms = <> < > IN LIKE IS [NOT] NULL, AND/OR/NOT depth <= 3) x rendering (raw ? string with random keyword case / whitespace incl. tab and new line / redundant and adjacent parentheses, literal string, @name template, map, struct or pointer incl. zero fields, clause.Expression tree, grouped db.Where(db.Where(A).Or(B)), primary-key slice), optional inline finisher condition and primary key of the model value; finishers Find / Find into keyed struct / Count / Update(marker) / Delete, each on a fresh table; the ids read / counted / updated / deleted must equal the ids on which the three-valued reference predicate is TRUE. non-trivial = at least two effective units, one of them with an inner AND/OR (or several members) or reached through Not/Or, and the selected set is neither empty nor the whole table; distinct = rows + chain + finisher"
+const rule = "C02: table items(id, ca, cb int; cs text; cn int NULL; ct text NULL; cor int; band text - two column names containing the letters of OR / AND) with 0-12 rows over tiny domains (text values include keyword-bearing data such as or / sand / b and c, compared values also x OR y); a chain of 1-5 Where/Not/Or calls (first effective call not Or) over units = condition tree (atoms = <> < > IN LIKE IS [NOT] NULL, AND/OR/NOT depth <= 3) x rendering (raw ? string with random keyword case / whitespace incl. tab and new line / redundant and adjacent parentheses, literal string, @name template, map, struct or pointer incl. zero fields, clause.Expression tree, grouped db.Where(db.Where(A).Or(B)), primary-key slice, column name + value Where(col, v) with scalar / nil / slice / driver.Valuer slice values; map and clause.Eq/Neq values may be slice types implementing driver.Valuer = one value), optional inline finisher condition and primary key of the model value (also a composite key (id, k2) with only some parts set); finishers Find / Find into keyed struct / Count / Update(marker) / Delete, each on a fresh table; the ids read / counted / updated / deleted must equal the ids on which the three-valued reference predicate is TRUE. non-trivial = at least two effective units, one of them with an inner AND/OR (or several members) or reached through Not/Or, and the selected set is neither empty nor the whole table; distinct = rows + chain + finisher"
 
-var spec = cond.TableSpec{Name: "items"}
+var spec = cond.TableSpec{Name: "items", Extra: []string{"k2"}}
+
+// Item2 reads the same table through a composite primary key (id, k2): a model
+// value whose key is only partly set adds a condition for the set parts only.
+type Item2 struct {
+	ID   int `gorm:"primaryKey"`
+	K2   int `gorm:"primaryKey"`
+	Ca   int
+	Cb   int
+	Cs   string
+	Cn   *int
+	Ct   *string
+	Cor  int
+	Band string
+	Mark int
+}
+
+func (Item2) TableName() string { return "items" }
 
 // fin is the finisher of a chain.
 type fin struct {
@@ -31,6 +48,8 @@ type fin struct {
 	PK         int    // primary key of the model value (0 = none)
 	ModelFirst bool   // Model() before (true) or after the condition calls
 	ViaModel   bool   // delete: key carried by Model(&Item{ID}) instead of the deleted value
+	Composite  bool   // find-pk / update: the model value is an Item2 (composite key id, k2)
+	K2         int    // second key part of the Item2 value (0 = not set)
 	Inline     *cond.Unit
 }
 
@@ -42,6 +61,9 @@ func (f fin) String() string {
 	pk := ""
 	if f.PK != 0 {
 		pk = fmt.Sprintf("ID:%d", f.PK)
+	}
+	if f.Composite {
+		pk = fmt.Sprintf("<Item2 key (id,k2)> ID:%d K2:%d", f.PK, f.K2)
 	}
 	switch f.Kind {
 	case "find":
@@ -70,7 +92,14 @@ type tcase struct {
 }
 
 func (c tcase) String() string {
-	return "rows=" + cond.RowsString(c.Rows) + " chain=db" + cond.CallsString(c.Calls) + "." + c.Fin.String()
+	k2 := ""
+	if c.Fin.Composite {
+		k2 = " k2="
+		for _, r := range c.Rows {
+			k2 += fmt.Sprint(r.FK)
+		}
+	}
+	return "rows=" + cond.RowsString(c.Rows) + k2 + " chain=db" + cond.CallsString(c.Calls) + "." + c.Fin.String()
 }
 
 func (c tcase) pred() *cond.Node {
@@ -80,6 +109,9 @@ func (c tcase) pred() *cond.Node {
 	}
 	if c.Fin.PK != 0 {
 		tail = append(tail, cond.Atom("id", cond.OpEq, cond.IntV(c.Fin.PK)))
+	}
+	if c.Fin.K2 != 0 {
+		tail = append(tail, cond.Atom("fk", cond.OpEq, cond.IntV(c.Fin.K2)))
 	}
 	return cond.ChainPred(c.Calls, tail...)
 }
@@ -102,6 +134,21 @@ func genCase(rt *rapid.T) tcase {
 	kind := []string{"find", "find", "find", "find-pk", "count", "count", "update", "update", "delete", "delete"}[x.N(10)]
 	c.Fin.Kind = kind
 	pk := func() int { return 1 + x.N(13) }
+	for i := range c.Rows {
+		c.Rows[i].FK = x.N(3) // column k2
+	}
+	composite := func() {
+		if x.Pct(35) {
+			c.Fin.Composite = true
+			switch x.N(3) {
+			case 0: // only the first part set
+			case 1: // only the second part set
+				c.Fin.PK, c.Fin.K2 = 0, 1+x.N(2)
+			default:
+				c.Fin.K2 = 1 + x.N(2)
+			}
+		}
+	}
 	switch kind {
 	case "find":
 		if x.Pct(35) {
@@ -109,6 +156,7 @@ func genCase(rt *rapid.T) tcase {
 		}
 	case "find-pk":
 		c.Fin.PK = pk()
+		composite()
 		if x.Pct(25) {
 			c.Fin.Inline = cond.GenInline(rt, cfg)
 		}
@@ -116,6 +164,7 @@ func genCase(rt *rapid.T) tcase {
 		c.Fin.ModelFirst = x.Pct(50)
 		if x.Pct(20) {
 			c.Fin.PK = pk()
+			composite()
 		}
 	case "delete":
 		if x.Pct(20) {
@@ -127,6 +176,14 @@ func genCase(rt *rapid.T) tcase {
 		}
 	}
 	return c
+}
+
+func insertRows(rows []cond.Row) []cond.InsertRow {
+	out := cond.Plain(rows)
+	for i := range out {
+		out[i].Extra = []int{rows[i].FK}
+	}
+	return out
 }
 
 // outcome of running a chain.
@@ -144,7 +201,7 @@ func run(c tcase) (outcome, error) {
 	if err := spec.Create(d.SQL); err != nil {
 		return outcome{}, fmt.Errorf("create: %w", err)
 	}
-	if err := spec.Insert(d.SQL, cond.Plain(c.Rows)); err != nil {
+	if err := spec.Insert(d.SQL, insertRows(c.Rows)); err != nil {
 		return outcome{}, fmt.Errorf("insert: %w", err)
 	}
 	env := cond.Env{Base: d.DB, MakeStruct: cond.StructMaker(reflect.TypeOf(cond.Item{}))}
@@ -163,10 +220,19 @@ func run(c tcase) (outcome, error) {
 			o.ids = append(o.ids, it.ID)
 		}
 	case "find-pk":
+		o.ids = []int{}
+		if c.Fin.Composite {
+			it := Item2{ID: c.Fin.PK, K2: c.Fin.K2}
+			tx := cond.ApplyCalls(d.DB, env, c.Calls).Find(&it, inline...)
+			o.err, o.affected = tx.Error, tx.RowsAffected
+			if tx.RowsAffected > 0 {
+				o.ids = append(o.ids, it.ID)
+			}
+			break
+		}
 		it := cond.Item{ID: c.Fin.PK}
 		tx := cond.ApplyCalls(d.DB, env, c.Calls).Find(&it, inline...)
 		o.err, o.affected = tx.Error, tx.RowsAffected
-		o.ids = []int{}
 		if tx.RowsAffected > 0 {
 			o.ids = append(o.ids, it.ID)
 		}
@@ -175,10 +241,14 @@ func run(c tcase) (outcome, error) {
 		o.err = tx.Error
 	case "update":
 		var tx *gorm.DB
+		var model interface{} = &cond.Item{ID: c.Fin.PK}
+		if c.Fin.Composite {
+			model = &Item2{ID: c.Fin.PK, K2: c.Fin.K2}
+		}
 		if c.Fin.ModelFirst {
-			tx = cond.ApplyCalls(d.DB.Model(&cond.Item{ID: c.Fin.PK}), env, c.Calls)
+			tx = cond.ApplyCalls(d.DB.Model(model), env, c.Calls)
 		} else {
-			tx = cond.ApplyCalls(d.DB, env, c.Calls).Model(&cond.Item{ID: c.Fin.PK})
+			tx = cond.ApplyCalls(d.DB, env, c.Calls).Model(model)
 		}
 		tx = tx.Update("mark", 7)
 		o.err, o.affected = tx.Error, tx.RowsAffected
@@ -344,7 +414,7 @@ func nontrivial(c tcase, selected int) bool {
 	if c.Fin.Inline != nil {
 		c.Fin.Inline.Walk(cond.VWhere, 0, count)
 	}
-	if c.Fin.PK != 0 {
+	if c.Fin.PK != 0 || c.Fin.K2 != 0 {
 		units++
 	}
 	return units >= 2 && hard && selected > 0 && selected < len(c.Rows)
@@ -353,8 +423,11 @@ func nontrivial(c tcase, selected int) bool {
 func classes(c tcase) []string {
 	cl := cond.Classes(c.Calls, c.Fin.Inline)
 	cl = append(cl, "fin:"+c.Fin.Kind, fmt.Sprintf("calls:%d", len(c.Calls)))
-	if c.Fin.PK != 0 {
+	if c.Fin.PK != 0 || c.Fin.K2 != 0 {
 		cl = append(cl, "pk:model-value")
+	}
+	if c.Fin.Composite {
+		cl = append(cl, "pk:composite", fmt.Sprintf("pk:composite-parts-%v-%v", c.Fin.PK != 0, c.Fin.K2 != 0))
 	}
 	switch n := len(c.Rows); {
 	case n == 0:
